@@ -510,6 +510,10 @@ class PyReader:
                 return PySet((k_, True) for k_ in l if k_ in r)
             if isinstance(l, list) and isinstance(r, list) and isinstance(n.op, ast.Add):
                 return l + r
+            if isinstance(l, str) and isinstance(r, str) and isinstance(n.op, ast.Add):
+                return l + r
+            if isinstance(n.op, ast.Mult) and ((isinstance(l, str) and isinstance(r, int) and not isinstance(r, bool)) or (isinstance(r, str) and isinstance(l, int) and not isinstance(l, bool))):
+                return l * r
             if isinstance(l, list) and isinstance(r, int) and isinstance(n.op, ast.Mult):
                 return l * max(r, 0)
             if isinstance(l, int) and isinstance(r, list) and isinstance(n.op, ast.Mult):
@@ -622,6 +626,10 @@ class PyReader:
             return self.ev_call(n, env, fns)
         if isinstance(n, ast.Lambda):
             return ("lambda", n, dict(env))
+        if isinstance(n, ast.NamedExpr) and isinstance(n.target, ast.Name):
+            v = self.ev(n.value, env, fns)
+            env[n.target.id] = v  # (name := value): binds in the enclosing scope, is the value
+            return v
         self.fail(n, type(n).__name__)
 
     def comp_envs(self, generators: list, env: dict, fns: dict, n: ast.AST) -> list:
@@ -984,6 +992,13 @@ class PyReader:
                         if len(args) > 1:
                             return args[1]
                         raise Raised("KeyError", getattr(n, "lineno", 0))
+                    if n.func.attr == "update" and len(args) <= 1 and all(isinstance(a_, dict) for a_ in args):
+                        for a_ in args:
+                            base.update(a_)
+                        base.update(kwargs)
+                        return None
+                    if n.func.attr == "copy" and not args:
+                        return dict(base)
                     if n.func.attr == "setdefault" and len(args) == 2:
                         return base.setdefault(freeze(args[0]), args[1])
                 if n.func.attr in ("subs", "xreplace") and isinstance(base, (T, int)) and not isinstance(base, bool):
@@ -991,9 +1006,14 @@ class PyReader:
                         kwargs = dict(kwargs, simultaneous=True)
                     return self.subs(base, args, kwargs, n)
                 if isinstance(base, str) and n.func.attr in ("splitlines", "strip", "lstrip", "rstrip", "startswith", "endswith", "split", "join", "replace", "lower", "upper",
-                                                             "isspace", "isdigit", "isalpha", "count", "find", "removeprefix", "removesuffix", "expandtabs") \
+                                                             "isspace", "isdigit", "isalpha", "count", "find", "removeprefix", "removesuffix", "expandtabs", "title", "capitalize", "rfind", "zfill", "ljust", "rjust") \
                         and all(isinstance(a_, (str, int)) or (isinstance(a_, list) and all(isinstance(x_, str) for x_ in a_)) or a_ is None for a_ in args) and not kwargs:
                     return getattr(base, n.func.attr)(*[tuple(a_) if n.func.attr in ("startswith", "endswith") and isinstance(a_, list) else a_ for a_ in args])
+                if isinstance(base, str) and n.func.attr == "format" and all(isinstance(a_, (str, int)) and not isinstance(a_, bool) for a_ in list(args) + list(kwargs.values())):
+                    try:
+                        return base.format(*args, **kwargs)
+                    except (KeyError, IndexError) as e_:
+                        raise Raised(type(e_).__name__, getattr(n, "lineno", 0))
                 if isinstance(base, PySet):
                     if n.func.attr == "add" and len(args) == 1:
                         base[freeze(args[0])] = True
@@ -1041,6 +1061,8 @@ class PyReader:
                 except TypeError:
                     self.fail(n, "unhashable set element")
             return out_
+        if name == "bool" and len(args) == 1 and not kwargs and name not in self.functions:
+            return self.truthy(args[0], n)
         if name == "len" and len(args) == 1 and isinstance(args[0], (list, dict, str)):
             return len(args[0])
         if name in ("max", "min") and args and all(isinstance(a, int) for a in args):
